@@ -31,7 +31,7 @@ ASSUMPTIONS = [
     '"returned"',
 ]
 NSH = 16
-NCASE = {'quick': 64_000, 'thorough': 500_000}
+NCASE = {'quick': 64_000, 'thorough': 2_000_000}
 BATCH = 500
 
 
